@@ -111,6 +111,22 @@ static int usability_cycle(const pt_t *p, rng_t *rng)
 			rep_count("streaming_cycles_checked_against_the_peeling_closure", 1);
 		}
 	}
+	if (ret == 0 && c.codec == 3 && n <= 4000 && k >= 2) {
+		/* the last repair symbol lost together with about a third of everything else, then of_finish_decoding: whenever the received
+		 * set determines the block (GF(2) rank oracle) it must come back complete and right */
+		g_prop = ""; int orc = b.sys ? 0 : block_oracle(&b); g_prop = sv;
+		if (orc == 0) for (int rep = 0; rep < 3 && ret == 0; rep++) {
+			m = 0; for (uint32_t e = 0; e + 1 < n; e++) if (rng_below(rng, 10) >= 3) sub[m++] = e;
+			for (uint32_t i = m; i > 1; i--) { uint32_t j = rng_below(rng, i); uint32_t t = sub[i - 1]; sub[i - 1] = sub[j]; sub[j] = t; }
+			hist_t h4 = { (int)rng_below(rng, 2), 1, 0, 0, 0, m, sub, n <= 300 ? 1 : (int)(n / 20), 0, 1 };
+			g_prop = "C01"; before = g_viol_total;
+			run_history(&b, &h4, MON_C01 | MON_C03, &res);
+			g_prop = sv;
+			if (g_viol_total != before) ret = 3;
+			else if (res.oracle_solvable == 1 && !res.complete) ret = 5;
+			rep_count("cycles_with_the_last_repair_symbol_lost", 1);
+		}
+	}
 	g_session_preprobe = 0;
 	free(sub); free(lost); block_free(&b);
 	return ret;
@@ -195,7 +211,7 @@ static void point(const pt_t *p, rng_t *rng)
 	else if (nv && rc != 10) { snprintf(key, sizeof key, "accept-outside:codec=%s:limit=%s", cn(p->codec), lim); rep_viol(key, "of_set_fec_parameters returned OF_STATUS_OK for a configuration outside the advertised limits"); }
 	else if (!nv && rc == 10 && p->L > (1u << 20)) rep_count("huge_symbol_length_rejected_tolerated_as_out_of_memory", 1);
 	else if (!nv && rc == 10) { snprintf(key, sizeof key, "reject-inside:codec=%s", cn(p->codec)); rep_viol(key, "of_set_fec_parameters rejected a configuration inside the advertised limits"); }
-	else if (!nv && rc >= 20) { snprintf(key, sizeof key, "accepted-unusable:codec=%s:phase=%s", cn(p->codec), rc == 21 ? "encode" : rc == 22 ? "decode-incomplete" : rc == 24 ? "streaming-decode" : "decode-wrong"); rep_viol(key, "accepted configuration failed the encode/decode cycle"); }
+	else if (!nv && rc >= 20) { snprintf(key, sizeof key, "accepted-unusable:codec=%s:phase=%s", cn(p->codec), rc == 21 ? "encode" : rc == 22 ? "decode-incomplete" : rc == 24 ? "streaming-decode" : rc == 25 ? "solvable-but-incomplete" : "decode-wrong"); rep_viol(key, "accepted configuration failed the encode/decode cycle"); }
 	if (!nv) { rep_count("points_inside_limits", 1); if (want_cycle) rep_count("usability_cycles", 1); rep_sample("inside-limits"); }
 	else { rep_count("points_outside_limits", 1); rep_sample("outside-limits"); }
 	rep_case_done(1, 0, 1);
